@@ -105,6 +105,8 @@ fn main() {
     p!("RB_CORRELATION_COUNTER_OFFSET", rb::CORRELATION_COUNTER_OFFSET);
     p!("RB_CONSUMER_HEARTBEAT_OFFSET", rb::CONSUMER_HEARTBEAT_OFFSET);
     p!("RB_TRAILER_LENGTH", rb::TRAILER_LENGTH);
+    p!("RB_HEADER_LENGTH", rb::record_descriptor::HEADER_LENGTH);
+    p!("RB_ALIGNMENT", rb::record_descriptor::ALIGNMENT);
     // broadcast
     p!("BC_TAIL_INTENT_COUNTER_OFFSET", bbd::TAIL_INTENT_COUNTER_OFFSET);
     p!("BC_TAIL_COUNTER_OFFSET", bbd::TAIL_COUNTER_OFFSET);
